@@ -95,6 +95,29 @@ def gen_random(seed: int, n: int, long_p: float = 0.1) -> List[Dict[str, Any]]:
                 steps.append([t, "remove", rng.randint(1, len(srcs)), rng.randint(1, sid)])
         out.append({"cfg": {"start": start, "horizon": horizon, "srcs": srcs, "kickfail": kickfail, "kicklat": rng.choice([0, 0, 0, 300])},
                     "steps": steps, "family": "sched_random"})
+        if rng.random() < 0.1:
+            out[-1]["cfg"]["kicklat"] = 75000
+    return out
+
+
+def gen_latency(seed: int, n: int) -> List[Dict[str, Any]]:
+    """Slow sources (listing takes 5 ms .. 2.5 s), also straddling a minute boundary, and very slow kicks (75 s).
+    Not conformance-checked (the model keeps listing latency at 0); judged by the observer only."""
+    out = []
+    for sc in gen_random(seed + 77, n, long_p=0.0):
+        rng = random.Random(repr(sc["cfg"]["start"]) + repr(len(out)))
+        lat = rng.choice([5, 400, 1500, 2500])
+        for s in sc["cfg"]["srcs"]:
+            s["lat"] = rng.choice([0, lat])
+            s["fail"] = []
+        sc["cfg"]["srcs"][0]["lat"] = lat
+        if rng.random() < 0.5:
+            sc["cfg"]["start"] = 60000 - rng.choice([1, 3, lat // 2 + 1])     # the first listing crosses the boundary
+        sc["cfg"]["kicklat"] = rng.choice([0, 0, 300, 75000])
+        sc["steps"] = []
+        sc["family"] = "sched_latency"
+        sc["noconf"] = True
+        out.append(sc)
     return out
 
 
@@ -195,7 +218,8 @@ def run_check(prop: str, tier: str, extra: Any = None) -> int:
     states, transitions = r["distinct"], r["generated"]
     rep.info(f"model checking: {states} distinct states, {transitions} transitions ({r['n_cfgs']} configurations, minute = 12 units)")
     # ---- real executions
-    scns = list(gen_sweep(full=not q)) + gen_random(seed, 500 if q else 6000) + gen_label(seed, 150 if q else 2000)
+    scns = list(gen_sweep(full=not q)) + gen_random(seed, 500 if q else 6000) + gen_label(seed, 150 if q else 2000) + \
+        gen_latency(seed, 200 if q else 2500)
     for kf in common.known_findings():
         if kf["property"] == prop and kf.get("regression_scenario"):
             scns.append(dict(kf["regression_scenario"], family="ledger:" + kf["id"]))
@@ -214,7 +238,7 @@ def run_check(prop: str, tier: str, extra: Any = None) -> int:
     # ---- conformance
     ncf = 250 if q else 3000
     step = max(1, len(traces) // ncf)
-    idxs = list(range(0, len(traces), step))[:ncf]
+    idxs = [i for i in range(0, len(traces), step) if not scns[i].get("noconf")][:ncf]
     ctext = "SPECIFICATION TraceSpec\n" + const_text(sw, [], cfgs="Cfgs = {}", adds="AddSpecs = {}") + \
             "INVARIANT Progress\nPOSTCONDITION Done\nCHECK_DEADLOCK FALSE\n"
     try:
